@@ -895,8 +895,13 @@ def evidence_programs(rng, bw, n):
         slots = rng.sample(range(0, 6), rng.randrange(1, 4))
         for s in slots:
             for _ in range(rng.randrange(2, 6)):
-                k = rng.randrange(13)
-                if k >= 10:     # one value used twice: stored as it is, and stored again under a second operation
+                k = rng.randrange(15)
+                if k >= 13:     # an element of the dynamic array at slot s is the value loaded from another slot: the slots' types
+                    #              refer to each other (recursive types shared between slots)
+                    t = rng.choice(slots)
+                    a.push(s).push(0).op("MSTORE").push(t).op("SLOAD").push(0x20).push(0).op("SHA3")
+                    a.push(0x20 * rng.randrange(0, 3)).op("CALLDATALOAD").op("ADD").op("SSTORE")
+                elif k >= 10:     # one value used twice: stored as it is, and stored again under a second operation
                     #              (the shared sub-value receives judgements from two different rules)
                     def unop(bias):
                         r = rng.choice(bias + list(range(7)))
@@ -1037,4 +1042,25 @@ def dead_storage_programs(rng, bw, n):
                 a.op("JUMPDEST").push(s).op("SLOAD").push(s + 1).op("SSTORE")
         a.op("STOP")
         out.append((a.assemble(), perm))
+    return out
+
+
+def recursive_type_programs(rng, n):
+    """2-5 slots used as dynamic arrays (or mappings) whose elements are the values loaded from other slots of the group:
+    the slots' types refer to each other along a random functional graph, so cycles are entered from several points."""
+    out = []
+    for _ in range(n):
+        a = Asm()
+        k = rng.randrange(2, 6)
+        slots = rng.sample(range(0, 8), k)
+        for i, s in enumerate(slots):
+            t = rng.choice(slots)
+            if rng.random() < 0.8:      # array at s whose element is sload(t)
+                a.push(s).push(0).op("MSTORE").push(t).op("SLOAD").push(0x20).push(0).op("SHA3")
+                a.push(0x20 * i).op("CALLDATALOAD").op("ADD").op("SSTORE")
+            else:                       # mapping at s whose value is sload(t)
+                a.push(s).push(0x20).op("MSTORE").push(0x20 * i).op("CALLDATALOAD").push(0).op("MSTORE")
+                a.push(t).op("SLOAD").push(0x40).push(0).op("SHA3").op("SSTORE")
+        a.op("STOP")
+        out.append(a.assemble())
     return out
